@@ -20,7 +20,7 @@ impl rustls::client::danger::ServerCertVerifier for AcceptAny {
     fn supported_verify_schemes(&self) -> Vec<rustls::SignatureScheme> { vec![rustls::SignatureScheme::ED25519, rustls::SignatureScheme::ECDSA_NISTP256_SHA256] }
 }
 
-fn raw_client(seed: u8, cert_name: &str) -> (quinn::Endpoint, [u8; 32]) {
+pub fn raw_client(seed: u8, cert_name: &str) -> (quinn::Endpoint, [u8; 32]) {
     let secret = [seed; 32];
     let pkcs8 = ed25519::KeypairBytes { secret_key: secret, public_key: None }.to_pkcs8_der().unwrap();
     let key_der = PrivateKeyDer::Pkcs8(pkcs8.as_bytes().to_vec().into());
